@@ -1,0 +1,109 @@
+//go:build verif
+
+// Record schema: the RDATA layout of every record type, transcribed from the RFCs' RDATA diagrams (not from
+// the `dns:"..."` struct tags that drive the code generators).  One line per type:
+//
+//   schema <Type> <code> Field:codec[flags] ...
+//
+// codecs:  u8 u16 u32 u48 u64   big-endian unsigned integers
+//          a aaaa               IPv4 / IPv6 address (4 / 16 octets)
+//          name                 domain name, never compressed on output (RFC 3597 section 4)
+//          cname                domain name that may be compressed (RFC 1035 types only)
+//          str                  <character-string> (length octet + up to 255 octets)
+//          txts                 one or more <character-string>s to the end of the RDATA
+//          octet                remaining octets, presented as text with \DDD escapes
+//          any                  remaining octets, raw
+//          hex b64              remaining octets, presented as hex / base64
+//          hex(L) b64(L) b32(L) L octets (L = an earlier length field), presented as hex / base64 / base32hex
+//          bitmap               RFC 4034 section 4.1.2 type bitmap to the end of the RDATA
+//          names                domain names (uncompressed) to the end of the RDATA
+//          opts svcparams apl   EDNS0 options / SVCB parameters / APL items to the end of the RDATA
+//          gateway(T)           RFC 4025 / RFC 8777 gateway selected by T: nothing, IPv4, IPv6 or a name
+// flags:   canon                embedded name lower-cased in the DNSSEC canonical form (RFC 4034 6.2, RFC 6840 5.1)
+//          dash                 the empty value is presented as "-"
+// `=X` means: same RDATA layout as X (the Go type embeds X).
+// Comment-only file read by /verif/govc.
+
+package dns
+
+//@ schema A 1 A:a
+//@ schema NS 2 Ns:cname[canon]
+//@ schema MD 3 Md:cname[canon]
+//@ schema MF 4 Mf:cname[canon]
+//@ schema CNAME 5 Target:cname[canon]
+//@ schema SOA 6 Ns:cname[canon] Mbox:cname[canon] Serial:u32 Refresh:u32 Retry:u32 Expire:u32 Minttl:u32
+//@ schema MB 7 Mb:cname[canon]
+//@ schema MG 8 Mg:cname[canon]
+//@ schema MR 9 Mr:cname[canon]
+//@ schema NULL 10 Data:any
+//@ schema PTR 12 Ptr:cname[canon]
+//@ schema HINFO 13 Cpu:str Os:str
+//@ schema MINFO 14 Rmail:cname[canon] Email:cname[canon]
+//@ schema MX 15 Preference:u16 Mx:cname[canon]
+//@ schema TXT 16 Txt:txts
+//@ schema RP 17 Mbox:name[canon] Txt:name[canon]
+//@ schema AFSDB 18 Subtype:u16 Hostname:name[canon]
+//@ schema X25 19 PSDNAddress:str
+//@ schema ISDN 20 Address:str SubAddress:str
+//@ schema RT 21 Preference:u16 Host:name[canon]
+//@ schema NSAPPTR 23 Ptr:name
+//@ schema SIG 24 =RRSIG
+//@ schema KEY 25 =DNSKEY
+//@ schema PX 26 Preference:u16 Map822:name[canon] Mapx400:name[canon]
+//@ schema GPOS 27 Longitude:str Latitude:str Altitude:str
+//@ schema AAAA 28 AAAA:aaaa
+//@ schema LOC 29 Version:u8 Size:u8 HorizPre:u8 VertPre:u8 Latitude:u32 Longitude:u32 Altitude:u32
+//@ schema NXT 30 =NSEC
+//@ schema EID 31 Endpoint:hex
+//@ schema NIMLOC 32 Locator:hex
+//@ schema SRV 33 Priority:u16 Weight:u16 Port:u16 Target:name[canon]
+//@ schema NAPTR 35 Order:u16 Preference:u16 Flags:str Service:str Regexp:str Replacement:name[canon]
+//@ schema KX 36 Preference:u16 Exchanger:name[canon]
+//@ schema CERT 37 Type:u16 KeyTag:u16 Algorithm:u8 Certificate:b64
+//@ schema DNAME 39 Target:name[canon]
+//@ schema OPT 41 Option:opts
+//@ schema APL 42 Prefixes:apl
+//@ schema DS 43 KeyTag:u16 Algorithm:u8 DigestType:u8 Digest:hex
+//@ schema SSHFP 44 Algorithm:u8 Type:u8 FingerPrint:hex
+//@ schema IPSECKEY 45 Precedence:u8 GatewayType:u8 Algorithm:u8 GatewayAddr,GatewayHost:gateway(GatewayType) PublicKey:b64
+//@ schema RRSIG 46 TypeCovered:u16 Algorithm:u8 Labels:u8 OrigTtl:u32 Expiration:u32 Inception:u32 KeyTag:u16 SignerName:name[canon] Signature:b64
+//@ schema NSEC 47 NextDomain:name TypeBitMap:bitmap
+//@ schema DNSKEY 48 Flags:u16 Protocol:u8 Algorithm:u8 PublicKey:b64
+//@ schema DHCID 49 Digest:b64
+//@ schema NSEC3 50 Hash:u8 Flags:u8 Iterations:u16 SaltLength:u8 Salt:hex(SaltLength)[dash] HashLength:u8 NextDomain:b32(HashLength) TypeBitMap:bitmap
+//@ schema NSEC3PARAM 51 Hash:u8 Flags:u8 Iterations:u16 SaltLength:u8 Salt:hex(SaltLength)[dash]
+//@ schema TLSA 52 Usage:u8 Selector:u8 MatchingType:u8 Certificate:hex
+//@ schema SMIMEA 53 Usage:u8 Selector:u8 MatchingType:u8 Certificate:hex
+//@ schema HIP 55 HitLength:u8 PublicKeyAlgorithm:u8 PublicKeyLength:u16 Hit:hex(HitLength) PublicKey:b64(PublicKeyLength) RendezvousServers:names
+//@ schema NINFO 56 ZSData:txts
+//@ schema RKEY 57 Flags:u16 Protocol:u8 Algorithm:u8 PublicKey:b64
+//@ schema TALINK 58 PreviousName:name NextName:name
+//@ schema CDS 59 =DS
+//@ schema CDNSKEY 60 =DNSKEY
+//@ schema OPENPGPKEY 61 PublicKey:b64
+//@ schema CSYNC 62 Serial:u32 Flags:u16 TypeBitMap:bitmap
+//@ schema ZONEMD 63 Serial:u32 Scheme:u8 Hash:u8 Digest:hex
+//@ schema SVCB 64 Priority:u16 Target:name Value:svcparams
+//@ schema HTTPS 65 =SVCB
+//@ schema SPF 99 Txt:txts
+//@ schema UINFO 100 Uinfo:str
+//@ schema UID 101 Uid:u32
+//@ schema GID 102 Gid:u32
+//@ schema NID 104 Preference:u16 NodeID:u64
+//@ schema L32 105 Preference:u16 Locator32:a
+//@ schema L64 106 Preference:u16 Locator64:u64
+//@ schema LP 107 Preference:u16 Fqdn:name
+//@ schema EUI48 108 Address:u48
+//@ schema EUI64 109 Address:u64
+//@ schema NXNAME 128
+//@ schema TKEY 249 Algorithm:name Inception:u32 Expiration:u32 Mode:u16 Error:u16 KeySize:u16 Key:hex(KeySize) OtherLen:u16 OtherData:hex(OtherLen)
+//@ schema TSIG 250 Algorithm:name TimeSigned:u48 Fudge:u16 MACSize:u16 MAC:hex(MACSize) OrigId:u16 Error:u16 OtherLen:u16 OtherData:hex(OtherLen)
+//@ schema ANY 255
+//@ schema URI 256 Priority:u16 Weight:u16 Target:octet
+//@ schema CAA 257 Flag:u8 Tag:str Value:octet
+//@ schema AVC 258 Txt:txts
+//@ schema AMTRELAY 260 Precedence:u8 GatewayType:u8 GatewayAddr,GatewayHost:gateway(GatewayType&0x7f)
+//@ schema RESINFO 261 Txt:txts
+//@ schema TA 32768 KeyTag:u16 Algorithm:u8 DigestType:u8 Digest:hex
+//@ schema DLV 32769 =DS
+//@ schema RFC3597 0 Rdata:hex
